@@ -24,7 +24,11 @@ type Findings struct {
 
 func LoadFindings() *Findings {
 	var f Findings
-	b, err := os.ReadFile(filepath.Join(VerifDir, "known_findings.json"))
+	path := filepath.Join(VerifDir, "known_findings.json")
+	if os.Getenv("VERIF_REPO") != "" && os.Getenv("VERIF_FINDINGS") != "" {
+		path = os.Getenv("VERIF_FINDINGS") // development aid (trials on a scratch copy only)
+	}
+	b, err := os.ReadFile(path)
 	if err != nil {
 		return &f
 	}
